@@ -32,4 +32,4 @@ Definition degrees_fitb (c : compiled) : bool :=
 
 Definition side_conditions (d : desc) : res (list bool) :=
   do g <- build d; do c <- compile d g;
-  Ok [names_sepb g Req; names_sepb g Rsp; single_attachb g c; links_typedb g c; degrees_fitb c].
+  Ok [names_sepb g Req; names_sepb g Rsp; negb (d_nw d) || names_sepb g Wide; single_attachb g c; links_typedb g c; degrees_fitb c].
